@@ -91,7 +91,7 @@ def main(argv=None):
     try:
         if sharded:
             nshards, watchdog = getattr(mod, "THOROUGH_SHARDS", core.NCPU), getattr(mod, "THOROUGH_WATCHDOG_S", 3000)
-            parts, problems = core.run_sharded(mod.__name__, pid, a.tier, a.seed, nshards, level, watchdog)
+            parts, problems = core.run_sharded(mod.__name__, pid, a.tier, a.seed, nshards, level, watchdog, extra_env={"KDV_SCALE": str(a.scale)})
             for p in parts:
                 run.merge(p)
             if problems:
